@@ -7,8 +7,8 @@ EXPLANATION = (
     "a history of three operations (add a binary part, delete a part, add a path directly, change a media type, delete a part stored at the root of the package) addressing one of two file names is chosen by the solver; "
     "after every step - and in a clone taken at the end - each present file is listed exactly once, nothing absent is listed and the root entry carries the document's media type. "
 )
-OUTSIDE = ("the zip layer: 'mimetype' first and stored uncompressed, duplicate zip entry names, templates, clone, merge_styles_from (zipfile/filesystem I/O, not encodable - checked concretely in "
-           "the replay only); histories longer than 3 steps (4 in the thorough tier); more than two distinct file names")
+OUTSIDE = ("the zip layer: 'mimetype' first and stored uncompressed, duplicate zip entry names, templates (zipfile/filesystem I/O, not encodable - checked concretely in "
+           "the replay only); histories longer than 3 steps (4 in the thorough tier, first operation one of: add a part, delete a part, delete a root-level part); more than two distinct file names")
 ASSUMPTIONS = ["two concrete file names, the solver chooses which one each step addresses (so equal and different names are both explored)"]
 TRUSTED = _T
 _ENC = ["src/odfdo/manifest.py:Manifest.add_full_path,del_full_path,get_media_type,set_media_type,get_paths,_file_entry,make_file_entry",
@@ -24,8 +24,11 @@ OBLIGATIONS += [
     Obl(name=f"manifest_history4_op{_a}{_b}", module="h_manifest", func="manifest_history4", shadow=True, timeout=1500, tier="thorough",
         env={"VERIF_OP1": str(_a), "VERIF_OP2": str(_b)}, extra={"op1": _a, "op2": _b}, replay="r_h_manifest:manifest_history4", weight=300,
         bounds=f"4 steps: operation kinds {_a} (on file 0) then {_b}, then two symbolic operations (5 kinds); files of steps 2-4 symbolic (2 names)",
-        encodes=_ENC, stubs=_STUB) for _a in range(5) for _b in range(5)
+        encodes=_ENC, stubs=_STUB) for _a in (0, 1, 4) for _b in range(5)
 ]
 OBLIGATIONS.append(Obl(name="file_entry_attrs", module="h_xpath", func="file_entry_attrs", shadow=True, timeout=300, replay="r_h_xpath:file_entry_attrs", weight=30,
                        bounds="Manifest.make_file_entry(path, media type): path of 1..2 and media type of <= 1 characters, any of U+0020..U+D7FF (&, <, quotes included): the entry carries exactly what it was given",
                        encodes=["src/odfdo/manifest.py:Manifest.make_file_entry"], stubs=_STUB[:1]))
+OBLIGATIONS.append(Obl(name="merge_images", module="h_manifest", func="merge_images", shadow=True, timeout=600, replay="r_h_manifest:merge_images", weight=170,
+                       bounds="merge_styles_from a document whose styles refer to pictures (a draw:fill-image and/or a master page header image - symbolic), once or twice, the picture already present or not",
+                       encodes=["src/odfdo/document.py:Document.merge_styles_from,set_part,get_part", "src/odfdo/manifest.py:Manifest.add_full_path,get_media_type"], stubs=_STUB))
